@@ -118,6 +118,8 @@ class ModelPath:
     def exists(self):
         return self._p in self.fs.files
 
+    is_file = exists
+
     def __str__(self):
         return self._p
 
